@@ -229,8 +229,8 @@ def replay(pid, path):
 MANIFEST_C11 = dict(engine='explore+tlc-trace', ref='DESIGN.md section 6 C11',
    technique='TLC model checking of ScpiStatus.tla (+ in the thorough tier a TLAPS proof of its invariants for unbounded parameters) + TLC validation of every transition of the implementation state graph and of random walks',
    text='TLC exhaustively checks StbCoherent and the action properties on bounded alphabets of ScpiStatus.tla; the real library is explored breadth-first over the same alphabets (snapshot/restore, incl. ring indices) and every transition, plus seeded 16-bit random walks, is validated by TLC as the step the specification prescribes (also without an error callback installed and with writes to the MSS position). In addition the composition Scpi.tla is model-checked and random messages of a minimal instrument, and the hook traces of the repository test programs, are validated against it; and the generic register tree ScpiRegTree.tla (of which the standard registers are one instance: lemma StandardAgreement) is model-checked and bound to a USE_CUSTOM_REGISTERS build with a three-level user tree, transition filters, enable-less and parent-less groups (exploration over the model alphabets + random walks, every transition validated by TLC). Exhaustive within the alphabets, sampled beyond.',
-   note='Trusted: TLC, the driver projection (registers read from the context, queue content). Representative bits per register instead of all 16; direct STB writes excluded; SRE bit 6 ignored.')
+   note='Error callbacks and service-request handlers that re-enter the library are specified in ScpiStatusNested.tla (model-checked, TLAPS in the thorough tier) and bound by exploration and random walks. Trusted: TLC, the driver projection (registers read from the context, queue content). Representative bits per register instead of all 16; direct STB writes excluded; SRE bit 6 ignored.')
 MANIFEST_C12 = dict(engine='explore+tlc-trace', ref='DESIGN.md section 6 C12',
    technique='TLC model checking of ScpiStatus.tla (+ in the thorough tier TLAPS proofs of the latching, stickiness, class-bit and service-request properties) + TLC validation of implementation transitions, all 65536 codes',
    text='As C11, with the class-bit map checked for all 65536 codes on the real library, latching/stickiness of event bits and the service request (rising edge, never with MSS clear) compared on every explored transition.',
-   note='Trusted: TLC, driver projection and callback capture. Extra service requests while MSS is already 1 are accepted; on overflow the class bit of the dropped error is optional, the DER bit of -350 mandatory.')
+   note='With a re-entering service-request handler every rise of MSS inside a step needs its own announcement (ScpiStatusNested srqpp). Trusted: TLC, driver projection and callback capture. Extra service requests while MSS is already 1 are accepted; on overflow the class bit of the dropped error is optional, the DER bit of -350 mandatory.')
